@@ -387,6 +387,11 @@ fn blanks(input: Span) -> IResult<Span, ()> {
     V("seed-C13-r2-m3-unused-span-overwritten", [("@patch", "seeded/C13-r2-m3/patch.diff")], {"C13": "BOOK:"}),
     V("seed-C14-r2-m3-eof-branch-without-skipper", [("@patch", "seeded/C14-r2-m3/patch.diff")], {"C14": "SEQSKIP:parse::call_variant:expr->end_of_statement"}),
     V("benign-skipper-moved-into-end-of-statement", [("src/parse.rs", "    alt((map(char(';'), |_| ()), map(eof, |_| ()))).parse(input)", "    preceded(multiblanks0, alt((map(char(';'), |_| ()), map(eof, |_| ())))).parse(input)"), ("src/parse.rs", "    let (after, expr) = expr(arena, after)?;\n    let (after, _) = multiblanks0(after)?;\n    let (after, _) = end_of_statement(after)?;", "    let (after, expr) = expr(arena, after)?;\n    let (after, _) = end_of_statement(after)?;")], {"C14": None}),
+    V("seed-C16-r2-m1-dump-before-minimize", [("@patch", "seeded/C16-r2-m1/patch.diff")], {"C16": "MPT:main::aot:dumps-emitted-automaton"}),
+    V("seed-C16-r2-m2-cluster-counter", [("@patch", "seeded/C16-r2-m2/patch.diff")], {"C16": "CLUSTERID:dfa::do_to_dot"}),
+    V("seed-C16-r2-m3-encoder-fast-path", [("@patch", "seeded/C16-r2-m3/patch.diff")], {"C16": "ENC:regex::escape_dot_string"}),
+    V("seed-C14-r2-m2-duplicate-check-before-filter", [("@patch", "seeded/C14-r2-m2/patch.diff")], {"C14": "GUARD:check::ValidGrammar::from_grammar:DuplicateNonterminalDefinition"}),
+    V("seed-C15-r2-m2-underscore-prefix-no-c10-alarm", [("@patch", "seeded/C15-r2-m2/patch.diff")], {"C15": "WARN:main::aot:only-underscore-exempt", "C10": None}),
     # ---------------- C10
     V("c10-std-hashset-in-dfa", [("src/dfa.rs", "use hashbrown::{HashMap, HashSet};", "use hashbrown::HashMap;\nuse std::collections::HashSet;")], {"C10": "HASHORD:dfa::dfa_from_regex"}),
     V("c10-env-var", [("src/lib.rs", '    let version = env!("COMPLGEN_VERSION");', '    let version = std::env::var("COMPLGEN_VERSION").unwrap_or_default();')], {"C10": "AMBIENT:signature"}),
